@@ -21,6 +21,7 @@ META = {
                     "events simulation-based results must be bit-identical; under (b)/(c) simulation-based distributions are compared through the statistic only"],
     "deciding": ["pair:events", "pair:catalogs", "pair:cells"],
 }
+META["added"] = 'Added: the same forecast written to .dat files in different cell orders and loaded by the real loader, catalogs carrying a region that lists the cells in another order, mirrored-cell benchmark on dyadic rates (exact opposite-sign ties for the rank test), in-place re-ordering of an already evaluated catalog object, near-tie quantile skip.'
 MANIFEST = {
     "technique": "metamorphic recorder pairing two real executions of each public evaluation on permuted-but-equivalent inputs; equality oracle on statistic / analytic quantile / multiset of simulation-free distributions, bit equality under event permutation with a fixed seed",
     "level_text": "For generated forecasts/catalogs each of the 18 evaluation functions is executed on the original input and on event-, catalog- and cell-permuted equivalents (Cartesian and quadtree regions, events on cell boundaries); statistics and analytic quantiles must agree to rounding, simulation-free distributions as multisets, and seeded simulation-based results bit-for-bit under event permutation.",
